@@ -1,5 +1,303 @@
 import NibabelModel.Model.C16
-/-! Props/C16 — the property theorems for C16 (statements + proofs; helper lemmas live in Lemmas/). -/
+import NibabelModel.Generated.C16
+import NibabelModel.Lemmas.C16_Digits
+import NibabelModel.Lemmas.C16_Tck
+import NibabelModel.Lemmas.C16_Names
+import NibabelModel.Lemmas.C16_Trk
+import NibabelModel.Lemmas.C16_Aff
+/-! Props/C16 — property theorems for C16 (tractograms round-trip through TRK and TCK in RAS+ mm).
+    Statements about the TCK header arithmetic are about the definitions REGENERATED from the source
+    (`Gen.*`, Generated/C16.lean). -/
 namespace Nb.C16
+
+/-! ### TCK header: the number written after `file: .` is the byte offset of the data -/
+
+/-- For EVERY header text length, the value `_write_header` writes after `file: . ` equals the
+    length of everything it writes (`out`, the `\nfile: . ` text, the digits of the value itself,
+    `\nEND\n`) — i.e. the real offset of the first data byte.  (Digit-boundary argument: adding the
+    digit count can add at most one digit, and the second `len(str(..))` accounts for it.) -/
+theorem tck_offset_fixpoint (lenOut : Nat) :
+    Gen.tckHdrOffset lenOut =
+      lenOut + Gen.tckFilePrefixLen + decDigits (Gen.tckHdrOffset lenOut) + Gen.tckFileSuffixLen := by
+  have h := offset_digits_fixpoint (lenOut + 8 + 3 + 3)
+  simp only [Gen.tckHdrOffset, Gen.tckFilePrefixLen, Gen.tckFileSuffixLen]
+  omega
+
+example : Gen.tckHdrOffset 83 = 99 ∧ Gen.tckHdrOffset 84 = 101 := by
+  simp [Gen.tckHdrOffset, decDigits]
+
+/-- the reader's buffer is a positive multiple of one coordinate triple, whatever was requested -/
+theorem tck_buffer_multiple (req : Nat) :
+    0 < Gen.tckBufferBytes req ∧ Gen.tckBufferBytes req % Gen.coordinate_size = 0 ∧
+      req < Gen.tckBufferBytes req := by
+  simp only [Gen.tckBufferBytes, Gen.coordinate_size]
+  omega
+
+/-! ### TCK reader: independence of the buffer size -/
+
+/-- For every buffer size (in whole triples, positive) and every data section made of whole
+    triples, the chunked reader with its leftover carry yields exactly the streamlines of the
+    whole-stream parse, in order, and ends the same way (clean end / DataError). -/
+theorem tck_chunk_independent (c : Nat) (_hc : 0 < c) (off : Nat) (data : List Triple) :
+    (tckRead c 0 off data).items.map (·.1) = (tckParseWhole data).1 ∧
+    (tckRead c 0 off data).err = (tckParseWhole data).2 := by
+  have h := tckLoop_eq_scan c data [] off
+  exact ⟨h.1, h.2.1⟩
+
+example : (tckRead 1 0 67 (tckData [[(1, 2, 3), (4, 5, 6)], [(7, 8, 9)]])).items.map (·.1)
+    = [[(1, 2, 3), (4, 5, 6)], [(7, 8, 9)]] := by
+  rw [(tck_chunk_independent 1 (by decide) 67 _).1]; decide
+
+/-- a file whose data section does not consist of whole triples is always refused (ValueError from
+    `np.frombuffer`/`reshape` on the last, short read) — never read as different data -/
+theorem tck_ragged_refused (c ragged : Nat) (hr : ragged ≠ 0) (off : Nat) (data : List Triple) :
+    (tckRead c ragged off data).err = some Err.value :=
+  tckLoop_ragged c ragged hr data [] off
+
+/-- TCK round trip, exact on bit patterns, for every buffer size: what `save` writes is read back as
+    the same streamlines in the same order.  Hypothesis: no point is an all-NaN triple (in
+    particular: finite coordinates).  Streamlines with no points are written as a bare delimiter
+    and silently dropped by the reader (in the real code `ArraySequence` already drops them when
+    the `Tractogram` is built, so they only reach the writer through a `LazyTractogram`). -/
+theorem tck_roundtrip (c : Nat) (hc : 0 < c) (off : Nat) (sls : List (List Triple))
+    (h : ∀ s ∈ sls, ∀ t ∈ s, isDelim t = false) :
+    (tckRead c 0 off (tckData sls)).items.map (·.1) = sls.filter (fun s => !s.isEmpty) ∧
+    (tckRead c 0 off (tckData sls)).err = none := by
+  have hi := tck_chunk_independent c hc off (tckData sls)
+  have hs := tckScan_tckData sls h
+  refine ⟨?_, ?_⟩
+  · rw [hi.1]; simp [tckParseWhole, hs]
+  · rw [hi.2]
+    have : tckEofOk [infTriple] = true := by decide
+    simp [tckParseWhole, hs, this]
+
+example : ∀ s ∈ [[((1 : Nat), (2 : Nat), (3 : Nat))], [(0x7FC00000, 5, 6)]], ∀ t ∈ s, isDelim t = false := by decide
+
+/-! ### TRK names -/
+
+/-- `decode_value_from_name(encode_value_in_name(k, name))` (through the `S20` header field, which
+    strips trailing NULs) gives back `(name, k)` for every pair the encoder accepts with `k ≥ 1`,
+    a NUL-free name, and not (`name = ''` and `k = 1`) — that pair encodes to twenty NULs, which
+    reads as "unused field" (name '', value 0). -/
+theorem name_codec_roundtrip (name : Name) (k : Nat) (enc : List Nat)
+    (hnul : ∀ c ∈ name, c ≠ 0) (hk : 1 ≤ k) (hne : name ≠ [] ∨ 2 ≤ k)
+    (henc : encodeName k name = .ok enc) :
+    decodeName (s20 enc) = .ok (name, k) := by
+  by_cases h1 : name.length > 20
+  · simp [encodeName, h1] at henc
+  · by_cases hk1 : k ≤ 1
+    · -- k = 1: the name alone
+      simp [encodeName, h1, hk1] at henc
+      subst henc
+      have hk' : k = 1 := by omega
+      have hn : name ≠ [] := by
+        rcases hne with h | h
+        · exact h
+        · omega
+      unfold s20
+      rw [rstripNul_append_zeros]
+      have hr : rstripNul name = name :=
+        rstripNul_of_last name hn (getLast_ne_zero_of_all name hn hnul)
+      unfold decodeName
+      rw [hr, hr]
+      have : name.isEmpty = false := by cases name <;> simp_all
+      simp [this, splitNul_nulfree name hnul, hk']
+    · by_cases h2 : (name ++ [0] ++ decRepr k).length > 20
+      · simp only [encodeName, h1, hk1, h2, if_true, if_false] at henc
+        cases henc
+      · have henc' : name ++ [0] ++ decRepr k ++ List.replicate (20 - (name ++ [0] ++ decRepr k).length) 0 = enc := by
+          simp only [encodeName, h1, hk1, h2, if_false] at henc
+          injection henc
+        subst henc'
+        have hd : ∀ c ∈ decRepr k, c ≠ 0 := fun c hc => isDigit_ne_zero (decRepr_all_digit k c hc)
+        have hne2 : name ++ [0] ++ decRepr k ≠ [] := by simp
+        have hlast : (name ++ [0] ++ decRepr k).getLast hne2 ≠ 0 := by
+          rw [List.getLast_append_of_ne_nil hne2 (decRepr_ne_nil k)]
+          exact getLast_ne_zero_of_all _ _ hd
+        have hr : rstripNul (name ++ [0] ++ decRepr k) = name ++ [0] ++ decRepr k :=
+          rstripNul_of_last _ hne2 hlast
+        unfold s20
+        rw [rstripNul_append_zeros]
+        unfold decodeName
+        rw [hr, hr]
+        have he : (name ++ [0] ++ decRepr k).isEmpty = false := by simp
+        simp [splitNul_one_nul name (decRepr k) hnul hd, parseDec_decRepr]
+
+example : encodeName 3 [102, 97] = .ok ([102, 97, 0, 51] ++ List.replicate 16 0) := by
+  simp [encodeName, decRepr]
+
+/-! ### File position (reader generators) -/
+
+/-- Invariant of the reader generators of the CURRENT code, for every run (any items, any way of
+    ending), every start position and EVERY history of consumer actions (`next`/`close` in any
+    order, including abandoning the generator after the first record, iterating to the end, and an
+    exception raised by the reader): whenever the generator is not suspended at a `yield`, the file
+    position is the one found at the start. -/
+theorem position_invariant {α} (run : GenRun α) (start : Nat) (acts : List Act) :
+    ((Gen.init run true start).runActs acts).st.isSuspended = false →
+      ((Gen.init run true start).runActs acts).pos = start := by
+  suffices H : ∀ (g : Gen α), g.fixed = true → g.start = start → (g.st.isSuspended = false → g.pos = start) →
+      (g.runActs acts).fixed = true ∧ (g.runActs acts).start = start ∧
+      ((g.runActs acts).st.isSuspended = false → (g.runActs acts).pos = start) by
+    exact (H _ rfl rfl (fun _ => rfl)).2.2
+  induction acts with
+  | nil => intro g h1 h2 h3; exact ⟨h1, h2, h3⟩
+  | cons a as ih =>
+    intro g h1 h2 h3
+    have hstep : (g.step a).fixed = true ∧ (g.step a).start = start ∧
+        ((g.step a).st.isSuspended = false → (g.step a).pos = start) := by
+      cases a with
+      | next =>
+        simp only [Gen.step]
+        cases hst : g.st with
+        | fresh =>
+          simp only [Gen.advance]
+          split
+          · refine ⟨h1, h2, ?_⟩; intro hk; simp [GState.isSuspended] at hk
+          · simp [h1, h2]
+        | suspended j =>
+          simp only [Gen.advance]
+          split
+          · refine ⟨h1, h2, ?_⟩; intro hk; simp [GState.isSuspended] at hk
+          · simp [h1, h2]
+        | finished =>
+          refine ⟨h1, h2, ?_⟩
+          intro _
+          exact h3 (by rw [hst]; rfl)
+      | close =>
+        simp only [Gen.step]
+        cases hst : g.st with
+        | fresh =>
+          refine ⟨h1, h2, ?_⟩
+          intro _
+          exact h3 (by rw [hst]; rfl)
+        | suspended j => simp [h1, h2]
+        | finished =>
+          refine ⟨h1, h2, ?_⟩
+          intro _
+          exact h3 (by rw [hst]; rfl)
+    exact ih (g.step a) hstep.1 hstep.2.1 hstep.2.2
+
+/-- `position_restored`: for both readers, every data section, buffer size, start position and
+    consumer history, once the generator is finished (ran to the end, raised, or was closed /
+    garbage-collected after any number of items) or was never started, `tell()` is where it was. -/
+theorem position_restored (start : Nat) (acts : List Act) :
+    (∀ (c ragged off : Nat) (data : List Triple),
+      ((Gen.init (tckRead c ragged off data) true start).runActs acts).st.isSuspended = false →
+      ((Gen.init (tckRead c ragged off data) true start).runActs acts).pos = start) ∧
+    (∀ (ns np announced off : Nat) (words : List Nat),
+      ((Gen.init (trkRead ns np announced off words) true start).runActs acts).st.isSuspended = false →
+      ((Gen.init (trkRead ns np announced off words) true start).runActs acts).pos = start) :=
+  ⟨fun c ragged off data => position_invariant (tckRead c ragged off data) start acts,
+   fun ns np announced off words => position_invariant (trkRead ns np announced off words) start acts⟩
+
+/-- eager load = iterate to the end; lazy load = peek one record and drop the generator -/
+example : ((Gen.init (⟨[((1 : Nat), 40), (2, 52)], none, 64⟩ : GenRun Nat) true 7).runActs
+    [.next, .next, .next]).pos = 7 ∧
+    ((Gen.init (⟨[((1 : Nat), 40), (2, 52)], none, 64⟩ : GenRun Nat) true 7).runActs [.next, .close]).pos = 7 := by
+  decide
+
+/-- The ORIGINAL readers (`f.seek(start_position, os.SEEK_CUR)` as the last statement, no
+    try/finally): a complete iteration from position 0 leaves the handle at the end of the data,
+    from position 7 even beyond it, and a generator abandoned after the first record (the lazy
+    load's peek) leaves it after that record. -/
+theorem position_orig_counterexample :
+    ((Gen.init (⟨[((1 : Nat), 1016), (2, 1032)], none, 1032⟩ : GenRun Nat) false 0).runActs
+      [.next, .next, .next]).pos = 1032 ∧
+    ((Gen.init (⟨[((1 : Nat), 1016), (2, 1032)], none, 1032⟩ : GenRun Nat) false 7).runActs
+      [.next, .next, .next]).pos = 1039 ∧
+    ((Gen.init (⟨[((1 : Nat), 1016), (2, 1032)], none, 1032⟩ : GenRun Nat) false 0).runActs
+      [.next, .close]).pos = 1016 := by
+  decide
+
+/-! ### TRK records -/
+
+/-- TRK record round trip: for every list of records that agree with the header counts (`ns`
+    scalars per point, `np` properties per streamline; fewer than 2^31 points each), the reader,
+    given the count `save` writes (the number of records) or 0 ("not provided": read to end of
+    file), yields exactly the written records — same number, same order, same points with their
+    scalar columns, same properties — and ends without error. -/
+theorem trk_records_roundtrip (ns np off : Nat) (recs : List TrkRec) (hw : ∀ r ∈ recs, r.WF ns np)
+    (announced : Nat) (hann : announced = 0 ∨ announced = recs.length) :
+    (trkRead ns np announced off (trkDataWords recs)).items.map (·.1) = recs ∧
+    (trkRead ns np announced off (trkDataWords recs)).err = none :=
+  trkLoop_records ns np announced recs hw 0 off (by simpa using hann)
+
+example : (⟨[[1, 2, 3, 9], [4, 5, 6, 8]], [7, 7]⟩ : TrkRec).WF 1 2 := by
+  refine ⟨?_, rfl, by decide⟩
+  intro row h; simp at h; rcases h with h | h <;> subst h <;> rfl
+
+/-! ### The trackvis ⇄ RAS+mm affine -/
+
+/-- For each of the 48 voxel orders of the header, each of the 48 orientations the voxel-to-RAS
+    affine can have, all volume dimensions, all non-zero voxel sizes and every invertible
+    voxel-to-RAS matrix: `get_affine_trackvis_to_rasmm` succeeds, its result `T` is invertible, and
+    with `toTrackvis = T.inv` (the exact inverse `save` uses) `toRas (toTrackvis p) = p` and
+    `toTrackvis (toRas p) = p` for every point, exactly over `Rat`.
+    (Float32 rounding of `T`, of `np.linalg.inv` and of the products is outside the model.) -/
+theorem trackvis_affine_invertible (g : TrkGeom) (affOrnt : Ornt)
+    (horder : g.order ∈ voxelOrders) (haff : affOrnt ∈ allOrnts)
+    (hvs : g.vs.1 ≠ 0 ∧ g.vs.2.1 ≠ 0 ∧ g.vs.2.2 ≠ 0) (hdet : g.v2r.det ≠ 0) :
+    ∃ T, trackvisToRas g affOrnt = .ok T ∧ rasToTrackvis g affOrnt = .ok T.inv ∧ T.det ≠ 0 ∧
+      ∀ p, T.apply (T.inv.apply p) = p ∧ T.inv.apply (T.apply p) = p := by
+  obtain ⟨ho, hoMem, hoEq⟩ := axcodes_closed g.order horder
+  have hrt := axcodes_roundtrip affOrnt haff
+  obtain ⟨o, oMem, oEq⟩ := orntTransform_closed ho affOrnt hoMem haff
+  let T := g.v2r.comp ((invOrntAff o g.dims).comp (shiftHalf.comp (scaleInv g.vs)))
+  have hT : trackvisToRas g affOrnt = .ok T := by
+    simp only [trackvisToRas, hoEq, hrt, oEq, bind, Except.bind, pure, Except.pure]
+    rfl
+  have hdetT : T.det ≠ 0 := by
+    show (g.v2r.comp ((invOrntAff o g.dims).comp (shiftHalf.comp (scaleInv g.vs)))).det ≠ 0
+    rw [Aff.det_comp, Aff.det_comp, Aff.det_comp, det_shiftHalf]
+    have h1 := det_invOrntAff o oMem g.dims
+    have h2 := det_scaleInv g.vs hvs.1 hvs.2.1 hvs.2.2
+    intro h
+    rcases Rat.mul_eq_zero.mp h with h | h
+    · exact hdet h
+    · rcases Rat.mul_eq_zero.mp h with h | h
+      · exact h1 h
+      · rw [Rat.one_mul] at h; exact h2 h
+  refine ⟨T, hT, ?_, hdetT, fun p => ⟨Aff.apply_inv T hdetT p, Aff.inv_apply T hdetT p⟩⟩
+  simp [rasToTrackvis, hT, Except.map]
+
+example : (['L', 'P', 'S'] : List Char) ∈ voxelOrders ∧ ([(1, -1), (0, 1), (2, 1)] : Ornt) ∈ allOrnts := by
+  decide +kernel
+
+/-! ### Lazily loaded tractograms deliver RAS+mm items -/
+
+/-- what iterating a lazily loaded tractogram yields (`LazyTractogram.data`, used by `save`) has
+    the same points as its `.streamlines` property, and the per-point / per-streamline data of the
+    reader's items unchanged -/
+theorem lazy_items_agree (A : Aff) (raw : List Item) (its : List Item) (h : lazyItems A raw = some its) :
+    lazyStreamlines A raw = some (its.map (·.pts)) ∧
+    its.map (·.dpp) = raw.map (·.dpp) ∧ its.map (·.dps) = raw.map (·.dps) := by
+  induction raw generalizing its with
+  | nil =>
+    simp [lazyItems] at h
+    subst h
+    simp [lazyStreamlines]
+  | cons r rs ih =>
+    simp only [lazyItems, List.mapM_cons, Option.bind_eq_bind, Option.pure_def] at h
+    cases hp : r.pts.mapM (applyAffBits A) with
+    | none => simp [hp] at h
+    | some p =>
+      cases hrest : lazyItems A rs with
+      | none => simp [lazyItems] at hrest; simp [hp, hrest] at h
+      | some its' =>
+        have := ih its' hrest
+        simp only [lazyItems] at hrest
+        simp [hp, hrest] at h
+        subst h
+        simp only [lazyStreamlines, List.mapM_cons] at this ⊢
+        simp [hp, this.1, this.2.1, this.2.2]
+
+/-- the ORIGINAL `LazyTractogram.data` returned the reader's raw items: with the half-voxel shift
+    of an identity TRK header a lazily loaded point (0.5,0.5,0.5 in voxmm) was yielded as is
+    instead of as (0,0,0) RAS+mm -/
+theorem lazyItems_orig_counterexample :
+    lazyItemsOrig shiftHalf [⟨[(0x3F000000, 0x3F000000, 0x3F000000)], [], []⟩] ≠
+      lazyItems shiftHalf [⟨[(0x3F000000, 0x3F000000, 0x3F000000)], [], []⟩] := by
+  decide +kernel
 
 end Nb.C16
